@@ -34,7 +34,7 @@ RULE = (
     "(2) diff_edge/diff: on the 17 shipped short-Weierstrass curves k*G through the shared generator (table path), k*P on fresh points in mixed "
     "representations (NAF path, table path, affine Point), mul_add, + of random/equal/inverse/infinite operands in mixed representations, double, "
     "negation and point decoding are compared with OpenSSL EC_POINT_mul/add/dbl/invert/oct2point; scalars 0,1,2,n-1,n,n+1,2n, 2^k, 2^k+-1 and random up "
-    "to 2n; non-trivial = edge scalar, special operand relation or z != 1, distinct by case hash. (3) ecdh: both parties through ECDH with "
+    "to 2n; non-trivial = edge scalar, special operand relation or z != 1, distinct by case hash. (2b) reuse: a POOL of 2..5 point objects on a small curve (jacobi scaled/unscaled/negated, affine, library-made, with/without order and table) is built once and used as operands of 2..10 generated operations (mul_add, +, *, double, scale, ==, unary -): every result is the group table's, whatever the same objects were operands of before. (3) ecdh: both parties through ECDH with "
     "object/bytes/DER(SEC1,PKCS8)/PEM loaders of OpenSSL-encoded keys; both secrets must equal ECDH_compute_key; every case non-trivial. (4) invalid_*: "
     "off-curve, coordinate >= p or negative, infinity, point of another same-size curve and twist points, each confirmed invalid by ecref with OpenSSL's "
     "curve parameters, through VerifyingKey.from_string/from_der/from_pem/from_public_point and ECDH.load_received_public_key*; any exception = rejected; a "
@@ -49,7 +49,7 @@ ASSUMPTIONS = [
     "the known finding O11 is recognised by re-running the failing case with PointJacobi._add_with_z_1 fed reduced coordinates: it is excluded only if "
     "that makes the result correct AND the call saw congruent-but-unequal raw operands",
 ]
-REQUIRED_CLASSES = [
+REQUIRED_CLASSES = ["reuse.same-second-operand-other-first", 
     "small.add.equal-operands", "small.add.inverse-operands", "small.add.infinity-operand", "small.add.both-z=1", "small.add.z1==z2!=1",
     "small.add.one-z=1", "small.add.z1!=z2", "small.add.unreduced-Y-operand", "small.add.affine-Point-operand", "small.add.lib-made-operand",
     "small.mul.table", "small.mul.naf-with-order", "small.mul.naf-without-order", "small.mul.affine-Point", "small.mul.k=0", "small.mul.k=n",
@@ -679,6 +679,90 @@ def bulk_small_muladd(tier, shard, nshards, rec, rng):
                 sample = case
         rec.bulk("small_muladd", evals, nt, sample=sample)
     return None
+
+
+# =====================================================================================================================
+# reuse: a POOL of point objects is built once and then used as operands of a generated sequence of operations - a point is a value;
+# what an object was an operand of before (which partner, which scalar, scale()/precompute side effects) may not change any later result
+
+
+def check_reuse(case, rec):
+    S = SmallCtx.get(tuple(case["cv"]))
+    C, p, n = S.C, S.p, S.n
+    pool, idx = [], []
+    for rep, mode in case["pool"]:
+        rep = tuple(rep)
+        if rep[0] != "inf":
+            rep = (rep[0], 1 + rep[1] % (n - 1)) + tuple((1 + z % (p - 1)) if k == 0 else z for k, z in enumerate(rep[2:]))
+        try:
+            pool.append(_mode_build(S, rep, mode))
+        except Skip:
+            continue
+        idx.append(rep_index(rep))
+    if len(pool) < 2:
+        return
+    used_as_second = {}
+    hist = []
+    for step, (op, i, j, k1, k2) in enumerate(case["ops"]):
+        i, j = i % len(pool), j % len(pool)
+        A, B = pool[i], pool[j]
+        try:
+            if op == "mul_add":
+                if A is INFINITY or not isinstance(A, PointJacobi):
+                    continue
+                want = C.pts[(idx[i] * k1 + idx[j] * k2) % n]
+                got = aff(A.mul_add(k1, B, k2), p)
+                if used_as_second.get(j, i) != i:
+                    rec.cls("reuse.same-second-operand-other-first")
+                used_as_second[j] = i
+            elif op == "add":
+                want = C.pts[(idx[i] + idx[j]) % n]
+                got = aff(A + B, p)
+            elif op == "mul":
+                if A is INFINITY:
+                    continue
+                want = C.pts[(idx[i] * k1) % n]
+                got = aff(A * k1, p)
+            elif op == "dbl":
+                if A is INFINITY:
+                    continue
+                want = C.pts[(2 * idx[i]) % n]
+                got = aff(A.double(), p)
+            elif op == "scale":
+                if not isinstance(A, PointJacobi):
+                    continue
+                A.scale()
+                want, got = C.pts[idx[i]], aff(A, p)
+            elif op == "eq":
+                want, got = (idx[i] == idx[j]), bool(A == B)
+            else:
+                if A is INFINITY:
+                    continue
+                want = C.pts[(-idx[i]) % n]
+                got = aff(-A, p)
+        except Exception as e:
+            raise Violation("%s: step %d %s on pool objects #%d, #%d (k1=%d, k2=%d) raised %s: %s; earlier steps on the same objects: %r" % (
+                small_describe(S, dict(pool=case["pool"])), step + 1, op, i, j, k1, k2, type(e).__name__, exc_str(e), hist))
+        if got != want:
+            raise Violation("%s: step %d: %s on pool objects #%d (=%d*G), #%d (=%d*G) with k1=%d, k2=%d gives %r, the group law gives %r; earlier steps on the SAME objects: %r" % (
+                small_describe(S, dict(pool=case["pool"])), step + 1, op, i, idx[i], j, idx[j], k1, k2, got, want, hist))
+        hist.append((op, i, j, k1, k2))
+    if len(hist) >= 2:
+        rec.nt()
+
+
+def strat_reuse(tier):
+    keys = small_curve_keys(tier)
+    rep = st.one_of(
+        st.tuples(st.just("j"), st.integers(0, 1000), st.integers(0, 1000), st.integers(0, 1)),
+        st.tuples(st.just("j"), st.integers(0, 1000), st.just(0), st.just(0)),
+        st.tuples(st.just("a"), st.integers(0, 1000)),
+        st.tuples(st.just("lib"), st.integers(0, 1000), st.integers(0, LIB_VARIANTS - 1)),
+    )
+    mode = st.sampled_from(["ord", "ord", "ord", "tab", "noord"])
+    sc = st.integers(0, 70)
+    op = st.tuples(st.sampled_from(["mul_add", "mul_add", "mul_add", "add", "mul", "dbl", "scale", "eq", "neg"]), st.integers(0, 7), st.integers(0, 7), sc, sc)
+    return st.fixed_dictionaries(dict(cv=st.sampled_from(keys), pool=st.lists(st.tuples(rep, mode), min_size=2, max_size=5), ops=st.lists(op, min_size=2, max_size=10)))
 
 
 # =====================================================================================================================
@@ -1569,6 +1653,7 @@ def parts(tier):
         Part("small_unary", check=check_small, bulk=bulk_small_unary, quick=(8, 0), thorough=(16, 0), exhaustive=True),
         Part("small_mul", check=check_small, bulk=bulk_small_mul, quick=(16, 0), thorough=(16, 0), exhaustive=True),
         Part("small_muladd", check=check_small, bulk=bulk_small_muladd, quick=(16, 0), thorough=(16, 0)),
+        Part("reuse", check=check_reuse, strategy=strat_reuse, quick=(8, 250), thorough=(16, 3000)),
         Part("numtheory", check=check_numtheory, bulk=bulk_numtheory, quick=(4, 0), thorough=(8, 0), exhaustive=True),
         Part("diff_edge", check=check_diff, enum=enum_diff_edge, quick=(16, 0), thorough=(16, 0)),
         Part("diff", check=check_diff, strategy=strat_diff, quick=(16, 200), thorough=(16, 6000)),
